@@ -5,7 +5,7 @@
 (* selected the entry.  Only the raw values are used to judge.               *)
 EXTENDS Time, TraceLib
 
-InDomain(in) == TRUE
+InDomain(in, obs) == TRUE
 
 TestOK(t, r, obs) ==
   IF t.t = "age"
